@@ -1011,6 +1011,10 @@ func checkBulkRelease(p *Prog, f *ssa.Function, site ssa.CallInstruction, fSubs 
 							}
 						}
 					}
+					// a take helper: hands out the set itself
+					if fld, _ := fieldLoad(rv); fld == fSubs {
+						okSrc = true
+					}
 				}
 			}
 		}
@@ -1022,6 +1026,12 @@ func checkBulkRelease(p *Prog, f *ssa.Function, site ssa.CallInstruction, fSubs 
 	found := false
 	for _, st := range p.stores[fSubs] {
 		if st.Parent() == f && isNilConst(st.Val) && dominates(st, site) {
+			found = true
+		}
+	}
+	// ... or through a take helper called before the release
+	for _, c2 := range callsIn(f) {
+		if sf := c2.Common().StaticCallee(); sf != nil && p.takesField(sf, fSubs) && dominates(c2, site) {
 			found = true
 		}
 	}
